@@ -3,11 +3,11 @@ CodeBuilder API for 1..3 phases, generated with definite-assignment and type
 tracking so that the written program is well defined (DESIGN.md §3.4)."""
 import numpy as np
 
-from simdag.gen.expr import (Bin, Call, Cmp, Const, IfX, Logic, Not, Pow, Sub, Var,
+from simdag.gen.expr import (Attr, Bin, Call, Cmp, Const, IfX, Logic, Not, Pow, Sub, Var,
                              expr_vars, has_call, render, text)
 
 TEMP_POOL = ["x", "y", "z", "w", "u", "v", "temp", "temp_0", "temp_1", "local_x",
-             "cond", "self", "numpy", "t", "dt", "global_state_y", "y0", "X", "localx",
+             "cond", "self", "numpy", "t", "dt", "global_state_y", "y0", "X", "localx", "real", "imag", "d",
              # names that only exist as objects (not parseable): punctuation twins, sanitising collisions
              "y^", "y*", "y_", "a.b", "a_b", "x-1", "cond_"]
 ARR_POOL = ["a", "b", "c", "arr", "vec"]
@@ -35,6 +35,8 @@ FUNCS = {
     "<func>kw": ("num,y=,z=->num", lambda x, y=3, z=-1: x + 2 * y + 4 * z),
     "<func>pair": ("num->num,num", lambda x: (x + 1, x - 1)),
     "<func>noop": ("num->", lambda x: None),
+    "<func>pairlist": ("num->num,num", lambda x: [x + 1, x - 1]),      # two results as a list, not a tuple
+    "<func>tup": ("num->tup", lambda x: (x + 1, x - 1)),               # one result that is itself a tuple
     "<func>h": ("arr->arr", lambda a: 2 * np.asarray(a)),
     "<func>rev": ("arr->arr", lambda a: np.asarray(a)[::-1].copy()),
     "<func>total": ("arr->num", lambda a: float(np.asarray(a).sum())),
@@ -51,7 +53,7 @@ class Features:
     NAMES = ["loops", "var_bounds", "zero_trip", "nested_if", "else_", "if3", "strings",
              "fresh", "calls", "kwargs", "multi_assign", "arrays", "ifexpr", "phases",
              "fail", "switch", "restart", "raise_", "adv_names", "np_consts", "builtins",
-             "dead_code", "guarded_loops", "call_stmt", "logic"]
+             "dead_code", "guarded_loops", "call_stmt", "logic", "attrs"]
 
     def __init__(self, tape, p=0.6):
         with tape.span("features"):
@@ -128,6 +130,9 @@ def _ops_text(ops, nm, out, ind):
                                                                     text(te, nm), tid, mode))
         elif k == "fresh":
             out.append("%s%s = fresh_var_name(%r) -> %s" % (pad, op[1], op[2], nm(op[1])))
+        elif k == "implicit":
+            out.append("%sassign_implicit_1(%s, unknown %s, %s = 0, guess=%s)" % (
+                pad, nm(op[1]), nm(op[2]), text(op[3], nm), text(op[4], nm)))
         elif k == "raise":
             out.append("%sraise_(%s, %r)" % (pad, op[1], op[2]))
         elif k == "switch":
@@ -149,8 +154,9 @@ ERRORS = {"ErrA": ErrA, "ErrB": ErrB, "ValueError": ValueError}
 
 class ScriptGen:
     def __init__(self, tape, max_ops=8, max_phases=3, max_depth=2, persistent_p=True,
-                 unique_sites=False, force=(), forbid=(), cfg=None):
+                 unique_sites=False, force=(), forbid=(), cfg=None, implicit=False):
         self.tape = tape
+        self.implicit = implicit      # implicit solves (no stock back end runs them: schedule checks only)
         self.F = Features(tape)
         for name in force:
             setattr(self.F, name, True)
@@ -256,8 +262,11 @@ class ScriptGen:
              2 if depth > 0 and F.calls and allow_calls else 0,   # 6 user call
              1 if arrs and F.builtins and depth > 0 else 0,       # 7 builtin on array
              1 if counters else 0,                # 8 counter
-             0.7 if depth > 0 else 0]             # 9 dyadic quotient
+             0.7 if depth > 0 else 0,             # 9 dyadic quotient
+             (3.0 if ("real" in D or "imag" in D) else 1.0) if vs and F.attrs else 0]   # 10 attribute lookup
         k = t.weighted(w, "num")
+        if k == 10:
+            return Attr(self.pick(vs, "attrv"), ["real", "real", "imag"][t.draw(3, "attr")])
         if k == 0:
             return self.const_num()
         if k == 1:
@@ -540,7 +549,8 @@ class ScriptGen:
                      1.2 if (F.fail or F.switch or F.restart or F.raise_) else 0,  # 8 terminator
                      1.5 if F.arrays and self.arrs(D) else 0,   # 9 whole-array assign
                      1 if F.var_bounds else 0,             # 10 bound var
-                     1.0]                                  # 11 persistent update
+                     1.0,                                  # 11 persistent update
+                     1.5 if self.implicit else 0]          # 12 implicit solve
                 k = t.weighted(w, "opkind")
                 op = self.gen_op(k, D, depth)
                 if op is None:
@@ -564,6 +574,30 @@ class ScriptGen:
     def gen_op(self, k, D, depth):
         t = self.tape
         F = self.F
+        if k == 12:
+            # tgt <- solution for the unknown u of expr(u, ...) = 0, starting from guess; the unknown is a
+            # name of its own that may be spelled like a program variable (then the guess often mentions
+            # that variable, which the solve does read)
+            tgt = self.new_temp(D, "float")
+            if tgt is None:
+                return None
+            nums = [v for v in self.nums(D) if not v.startswith("$")]
+            if nums and t.chance(0.7, "unknown_like_var"):
+                unk = self.pick(nums, "unk")
+            else:
+                unk = "unk"
+            D2 = set(D) | {unk}
+            old = self.types.get(unk)
+            self.types.setdefault(unk, "float")
+            e = Bin("-", Bin("*", Var(unk), self.g_num(D2, 1, allow_calls=False)), self.g_num(D, 1, allow_calls=False))
+            if old is None:
+                del self.types[unk]
+            if unk in D and t.chance(0.7, "guess_is_var"):
+                guess = Var(unk)
+            else:
+                guess = self.g_num(D, 1, allow_calls=False)
+            D.add(tgt)
+            return ("implicit", tgt, unk, e, guess)
         if k == 0 or k == 11:
             typ = ["float", "int", "bool"][t.weighted([5, 2, 1.5], "atyp")]
             if k == 11:
@@ -649,7 +683,18 @@ class ScriptGen:
             body = Bin("+", Var(s), self.g_num(D - {s}, 1, counters=ctrs))
             return ("assign", s, None, body, loops, self.mode())
         if k == 4:
-            kind = t.weighted([2, 2 if F.multi_assign else 0, 1, 1 if F.builtins and self.arrs(D) else 0], "callkind")
+            kind = t.weighted([2, 2 if F.multi_assign else 0, 1, 1 if F.builtins and self.arrs(D) else 0,
+                               0.7 if F.multi_assign else 0], "callkind")
+            if kind == 4:
+                # one variable bound to a result that is itself a tuple, handed on as it is
+                tv = self.new_temp(D, "tup", pool=["pr", "tup", "res"], allow_existing=False)
+                if tv is None:
+                    return None
+                e = self.ucall("<func>tup", [self.g_num(D, 1)])
+                D.add(tv)
+                te = [Var("<t>"), Bin("+", Var("<t>"), Var("<dt>"))][t.draw(2, "tupt")]
+                return [("call", (tv,), e, self.mode()),
+                        ("yield", Var(tv), self.pick(COMPONENTS, "comp"), te, self.pick(TIME_IDS, "tid"), self.mode())]
             if kind == 0:
                 e = self.g_usercall_num(D, 1, ())
                 tgt = self.new_temp(D, "float")
@@ -662,7 +707,7 @@ class ScriptGen:
                 b = self.new_temp(D, "float")
                 if a is None or b is None or a == b:
                     return None
-                e = self.ucall("<func>pair", [self.g_num(D, 1)])
+                e = self.ucall(["<func>pair", "<func>pair", "<func>pairlist"][t.draw(3, "pairfn")], [self.g_num(D, 1)])
                 D.add(a)
                 D.add(b)
                 return ("call", (a, b), e, self.mode())
@@ -965,6 +1010,10 @@ def _apply_one(cb, op, ap, phase_name):
         elif k == "yield":
             _, e, comp, te, tid, mode = op
             cb.yield_state(_rend(e, ap, mode), comp, te.pym(ap.nm), tid)
+        elif k == "implicit":
+            from pymbolic import var as _v
+            _, tgt, unk, e, guess = op
+            cb.assign_implicit_1(_v(ap.nm(tgt)), _v(ap.nm(unk)), e.pym(ap.nm), guess.pym(ap.nm))
         elif k == "fresh":
             _, h, prefix, use_var = op
             before = len(cb.statements)
